@@ -95,17 +95,35 @@ pub fn hist_oracle(tr: &Transition) -> Vec<Violation> {
             }
         }
     }
-    // An unchanged source since the previous complete backup with the same options class writes
-    // no blocks at all.
-    if let (Op::Backup(_), None) = (&tr.ev.op, tr.ev.set) {
+    // A source that has not changed since the newest complete version writes no blocks and records
+    // identical addresses - also when interrupted attempts at the same tree (with or without a
+    // head) lie in between.
+    if let Op::Backup(_) = &tr.ev.op {
         if let Some(last) = tr.parent.live.keys().max() {
-            let newest_dir = tr.parent.snap.band_ids().last().cloned();
-            if newest_dir == Some(*last) && tr.parent.live[last] == tr.child.src.tree() {
+            let tree = tr.child.src.tree();
+            let later_same = tr
+                .parent
+                .snap
+                .band_ids()
+                .into_iter()
+                .filter(|b| b > last)
+                .all(|b| tr.parent.heads.get(&b).is_none_or(|t| *t == tree));
+            if later_same && tr.parent.live[last] == tree && tr.backup.is_some_and(|b| b.ok_stats().is_some()) {
                 let writes = tr.log.iter().filter(|r| r.verb == Verb::Write && r.path.starts_with("d/")).count();
                 if writes > 0 {
                     v.push(Violation::new(
                         "C14:unchanged-source-writes-blocks",
-                        format!("{}: {writes} block writes although the source equals the newest complete version", tr.at()),
+                        format!("{}: {writes} block writes although the source equals the newest complete version b{last:04}", tr.at()),
+                    ));
+                }
+                let new_band = *tr.child.snap.band_ids().last().unwrap();
+                let old: Vec<_> = tr.child.snap.band_entries(*last).into_iter().map(|e| (e.apath, e.addrs)).collect();
+                let new: Vec<_> = tr.child.snap.band_entries(new_band).into_iter().map(|e| (e.apath, e.addrs)).collect();
+                if old != new {
+                    let first = old.iter().zip(new.iter()).find(|(a, b)| a != b);
+                    v.push(Violation::new(
+                        "C14:unchanged-source-records-different-addresses",
+                        format!("{}: b{new_band:04} vs b{last:04}: first difference {first:?}", tr.at()),
                     ));
                 }
             }
@@ -118,7 +136,28 @@ pub fn hist_oracle(tr: &Transition) -> Vec<Violation> {
 /// the violations of `which` ("C14" or "C13").
 pub fn run_crash_rider(report: &Report, budget: &Budget, which: &str) -> (usize, usize) {
     let srcs = SrcCache::new();
-    let scenarios = common::standard_scenarios(&srcs);
+    let mut scenarios = common::standard_scenarios(&srcs);
+    if which == "C14" {
+        // Resuming a backup of a tree that has not changed since the newest complete version.
+        let s = common::opts_s();
+        scenarios.push(common::build_scenario(
+            "U1-b0(T1)+b1(T2)+T2-unchanged",
+            &[common::Step::Backup(common::tree_t1(), s.clone()), common::Step::Backup(common::tree_t2(), s.clone())],
+            common::tree_t2(),
+            s.clone(),
+            &srcs,
+        ));
+        scenarios.push(common::build_scenario(
+            "U2-b0(T1,defaults)+b1(T2,defaults)+T2-unchanged",
+            &[
+                common::Step::Backup(common::tree_t1(), BOpts::defaults()),
+                common::Step::Backup(common::tree_t2(), BOpts::defaults()),
+            ],
+            common::tree_t2(),
+            BOpts::defaults(),
+            &srcs,
+        ));
+    }
     let main_scratch = Scratch::new("c14");
     let mut cases = Vec::new();
     let mut traces = Vec::new();
